@@ -1,5 +1,5 @@
 \* thorough (the same constants checks/c13.py uses): every input of N = 8 samples over {-1, 0, 1}, every partition into process
-\* calls of 1..8 frames, d = 1..4.  See DelayLine_q.cfg for the invariants.  Measured: see evidence/C13.json (model_checking_runs).
+\* calls of 1..8 frames, d = 1..4.  See DelayLine_q.cfg for the invariants.  Measured: 30 548 016 distinct states (42 305 328 generated), depth 13, about 5 min on 4 workers.
 SPECIFICATION Spec
 CONSTANTS
   N = 8
